@@ -796,24 +796,6 @@ Definition crash_table (f : fs) (h : str) (o : op) (lens : list nat) (points : l
              end in
   map (fun kc => crash_tag f new (crash_exec (fst kc) (snd kc) steps f)) points.
 
-(* per item: result, (dir, file, tmp) observation, steps performed, crash table *)
-Fixpoint c_trace (f : fs) (l : list (item * list (nat * nat)))
-  :=
-  match l with
-  | [] => ([], f)
-  | (it, points) :: r =>
-      let '(h, o, lens) := match it with Do h o lens => (h, o, lens) | Crash h o lens _ _ => (h, o, lens) end in
-      let steps := op_steps f h o lens in
-      let tbl := crash_table f h o lens points in
-      let '(f1, x) := c_item f it in
-      let '(rest, f2) := c_trace f1 r in
-      ((out_obs x, (f_dir f1, obs_file (f_main f1), obs_file (f_tmp f1)), map step_code steps, tbl) :: rest, f2)
-  end.
-
-Definition nats (l : list Z) : list nat := map Z.to_nat l.
-Definition nat_pairs (l : list (Z * Z)) : list (nat * nat) :=
-  map (fun p => (Z.to_nat (fst p), Z.to_nat (snd p))) l.
-
 (* ------------------------------------------------------------------ KeyStore.get_resolving_keys, JsonKeyStore.from_device *)
 Definition RANDOM_DEVICE_ADDRESS : Z := 1.
 
@@ -907,3 +889,25 @@ Definition OPS_SKELETON : list (str * list Z) :=
 Definition DUMP_ARGS : bool * Z * bool :=
   (true, Z.of_nat INDENT, forallb (fun c => c <? 128) (esc_char 233)).
 Definition TMP_SUFFIX : str := S_ ".tmp".
+
+(* ------------------------------------------------------------------ trace for the harness *)
+(* per item: result, (dir, file, tmp) observation, steps performed, crash table,
+   get_resolving_keys of a get_all result *)
+Fixpoint c_trace (f : fs) (l : list (item * list (nat * nat)))
+  :=
+  match l with
+  | [] => ([], f)
+  | (it, points) :: r =>
+      let '(h, o, lens) := match it with Do h o lens => (h, o, lens) | Crash h o lens _ _ => (h, o, lens) end in
+      let steps := op_steps f h o lens in
+      let tbl := crash_table f h o lens points in
+      let '(f1, x) := c_item f it in
+      let '(rest, f2) := c_trace f1 r in
+      ((out_obs x, (f_dir f1, obs_file (f_main f1), obs_file (f_tmp f1)), map step_code steps, tbl,
+        resolving_of x) :: rest, f2)
+  end.
+
+Definition nats (l : list Z) : list nat := map Z.to_nat l.
+Definition nat_pairs (l : list (Z * Z)) : list (nat * nat) :=
+  map (fun p => (Z.to_nat (fst p), Z.to_nat (snd p))) l.
+
